@@ -77,8 +77,9 @@ package crl
 //@   assigns L.held, crlrepository.Entry.CRLStore, crlrepository.Entry.Loaded, crlrepository.Entry.LastUpdateSignatureVerifyFailed, crlrepository.Entry.LastUpdateSignature, crlrepository.Entry.Chains, H.crlrepository.Repository.crlRepository, M.map[string]*crlrepository.Entry, crlstore.MapStore.Map, M.map[string][]uint8, crlstore.LevelDbStore.Db, H.crlloader.MultiSchemesCRLLoader, H.crlloader.URLLoader, H.crlloader.FileLoader, X.ldbhas, X.fs, X.net, X.retry, X.stream, X.spos, X.hacc, X.hkind, E.uint8, E.any, E.string, fresh:E.*core.CertificateChainEntry, fresh:E.core.CertificateChain, fresh:E.core.CertificateChainEntry, G.crl.lastCrlUpdateFinishTime
 
 //@ func CRLRevocationChecker.updateWasRecentlyFinished
-//@   props C15
+//@   props C15 C13
 //@   requires c != nil && c.crlConfig != nil
+//@   requires[C13] update_mutex_held: wheld(&crlUpdateMutex)
 //@   noglobals
 //@   pure
 
